@@ -217,13 +217,27 @@ pub fn with_clause(w: &With) -> WithClause {
     let mut wc = WithClause::new();
     wc.recursive(w.recursive);
     for c in &w.ctes {
-        let mut cte = CommonTableExpression::new();
+        let mut cte = match (&*c.body, c.infer) {
+            (CteBody::Sel(q), true) if route(2) == 0 => CommonTableExpression::from_select(sel(q)),
+            (CteBody::Sel(q), true) => {
+                let mut cte = CommonTableExpression::new();
+                let s = sel(q);
+                cte.try_set_cols_from_select(&s);
+                cte.query(s);
+                cte
+            }
+            _ => CommonTableExpression::new(),
+        };
         cte.table_name(a(&c.name));
         for col in &c.cols {
             cte.column(a(col));
         }
         if let Some(m) = c.materialized {
             cte.materialized(m);
+        }
+        if c.infer {
+            wc.cte(cte);
+            continue;
         }
         match &*c.body {
             CteBody::Sel(q) => cte.query(sel(q)),
